@@ -319,6 +319,18 @@ pub fn sweep(x: &[u8]) -> Result<SweepInfo, (String, String)> {
             }
         });
         info.files_iterated = Some(n);
+        // a caller that keeps pulling after an error (`.flatten()`, `.filter_map(Result::ok)`)
+        // must still see the iteration end: it can never yield more items than the header lists
+        let listed = md.get_file_entries().map(|v| v.len()).unwrap_or(0);
+        let pulled = guard!("files() iteration past errors", {
+            match p.files() {
+                Ok(it) => it.take(listed + 8).count(),
+                Err(_) => 0,
+            }
+        });
+        if pulled > listed {
+            return Err(("iteration-does-not-end".to_string(), format!("files() yielded more than {} items for a header that lists {} files when the caller keeps pulling after an error", pulled - 1, listed)));
+        }
     }
     info.pkg = Some(p);
     Ok(info)
